@@ -294,14 +294,15 @@ class Impute(EnvironmentFilter):
         other_interactions = interactions
 
         start = time.time()
+        #with an indicator every feature is looked at: one that cannot be imputed may still have missing values
         if is_dense:
-            if self._stat in ["mean","median"]:
+            if self._stat in ["mean","median"] and not self._miss:
                 imputable_cols = [i for i,v in enumerate(first['context']) if isinstance(v,(int,float)) or v is None]
             else:
                 imputable_cols = list(range(len(first['context'])))
 
         elif is_sparse:
-            if self._stat in ['mean','median']:
+            if self._stat in ['mean','median'] and not self._miss:
                 unimputable_cols = {k for k,v in first['context'].items() if not (isinstance(v,(int,float)) or v is None)}
             else:
                 unimputable_cols = {}
@@ -343,8 +344,8 @@ class Impute(EnvironmentFilter):
                 imputation = self._get_imputation(col)
                 if imputation is not None:
                     imputations[i] = imputation
-                    if self._miss and any(map(self._is_missing,col)):
-                        impute_binary[i] = len(impute_binary)
+                if self._miss and any(map(self._is_missing,col)):
+                    impute_binary[i] = len(impute_binary)
 
         elif is_sparse:
             imputations = {}
@@ -356,9 +357,9 @@ class Impute(EnvironmentFilter):
                 imputation = self._get_imputation(col + [0]*(len(using_interactions)-len(col)))
                 if imputation is not None:
                     imputations[k] = imputation
-                    if self._miss and any(map(self._is_missing,col)):
-                        impute_binary[k] = f"{k}_is_missing"
-                        binary_template[f"{k}_is_missing"] = 0
+                if self._miss and any(map(self._is_missing,col)):
+                    impute_binary[k] = f"{k}_is_missing"
+                    binary_template[f"{k}_is_missing"] = 0
 
         elif is_value:
             imputations = self._get_imputation(unimputed)
@@ -373,8 +374,9 @@ class Impute(EnvironmentFilter):
             if is_dense:
                 is_missing = [0]*len(impute_binary)
                 for k,v in enumerate(context):
-                    if (v is None or v != v) and k in imputations:
-                        context[k] = imputations[k]
+                    if v is None or v != v:
+                        if k in imputations:
+                            context[k] = imputations[k]
                         if k in impute_binary:
                             is_missing[impute_binary[k]] = 1
                 context += is_missing
@@ -383,12 +385,13 @@ class Impute(EnvironmentFilter):
 
                 is_missing = binary_template.copy()
                 for k,v in context.items():
-                    if (v is None or v != v) and k in imputations:
-                        context[k] = imputations[k]
+                    if v is None or v != v:
+                        if k in imputations:
+                            context[k] = imputations[k]
+                        elif k not in unimputed and k not in unimputable_cols:
+                            context[k] = unseen_imputation
                         if k in impute_binary:
                             is_missing[impute_binary[k]] = 1
-                    elif (v is None or v != v) and k not in unimputed and k not in unimputable_cols:
-                        context[k] = unseen_imputation
                 context.update(is_missing)
 
             elif is_value:
